@@ -1,7 +1,7 @@
 (* Filter/BcjAllProofs.v — the stream theorems for all eight architectures. *)
 From LzVerif Require Import Base.Bytes Filter.Bcj Filter.BcjStream Filter.BcjArithProofs
   Filter.BcjWordProofs Filter.BcjCodeProofs Filter.BcjStreamProofs Filter.BcjInstProofs
-  Filter.BcjWinProofs Filter.BcjRiscvProofs Filter.BcjIa64Proofs Filter.BcjX86Proofs.
+  Filter.BcjWinProofs Filter.BcjRiscvProofs Filter.BcjIa64Proofs Filter.BcjX86Proofs Filter.BcjX86InvProofs.
 Ltac Zify.zify_post_hook ::= Z.div_mod_to_equations.
 
 Theorem code_facts_all a enc : code_facts a enc.
@@ -144,8 +144,10 @@ Lemma code_inverse_sparc : code_inverse SPARC.
 Proof. intros start buf. apply bcj_inverse_sparc. Qed.
 Lemma code_inverse_ia64 : code_inverse IA64.
 Proof. intros start buf. apply bcj_inverse_ia64. Qed.
+Lemma code_inverse_x86 : code_inverse X86.
+Proof. intros start buf _. apply bcj_inverse_x86. Qed.
 
-Theorem bcj_roundtrip_word : forall a, In a [ARM; ARMT; ARM64; PPC; SPARC; IA64] ->
+Theorem bcj_roundtrip_word : forall a, In a [X86; ARM; ARMT; ARM64; PPC; SPARC; IA64] ->
   forall start data, start mod bcj_align a = 0 -> bytes_ok data = true ->
   exists enc,
     bcj_enc_parts a start [data] = Ok enc /\ length enc = length data /\
@@ -156,7 +158,8 @@ Theorem bcj_roundtrip_word : forall a, In a [ARM; ARMT; ARM64; PPC; SPARC; IA64]
           Ok (data, [], rs', inner').
 Proof.
   intros a Ha. apply bcj_roundtrip.
-  destruct Ha as [<-|[<-|[<-|[<-|[<-|[<-|[]]]]]]].
+  destruct Ha as [<-|[<-|[<-|[<-|[<-|[<-|[<-|[]]]]]]]].
+  - exact code_inverse_x86.
   - exact code_inverse_arm.
   - exact code_inverse_armthumb.
   - exact code_inverse_arm64.
